@@ -89,6 +89,9 @@ func verifyFromHecoTx(native *native.NativeService, proof, extra []byte, fromCha
 	if err != nil {
 		return nil, fmt.Errorf("verifyFromHecoTx, GetCanonicalHeader height:%d, error:%s", height, err)
 	}
+	if headerWithSum == nil {
+		return nil, fmt.Errorf("verifyFromHecoTx, GetCanonicalHeader height:%d, error:no canonical header at this height", height)
+	}
 
 	hecoProof := new(Proof)
 	err = json.Unmarshal(proof, hecoProof)
